@@ -314,13 +314,14 @@ class CFG:
 
     def count_range(self, pred: Callable[[Node], bool], start: Optional[Node] = None,
                     exits: Optional[Iterable[Node]] = None, ignore_labels: Iterable[str] = (),
-                    cap: int = 3) -> Dict[int, Tuple[int, int]]:
+                    cap: int = 3, blocked_edges: Iterable[Tuple[int, Optional[str]]] = ()) -> Dict[int, Tuple[int, int]]:
         """For each exit node: (min, max) number of pred-nodes on paths start -> exit (max capped).
         Forward dataflow to a fixpoint on the lattice of (min,max) pairs."""
         start = start or self.entry
         ex = list(exits) if exits is not None else [self.exit]
         ign = set(ignore_labels)
         ex_ids = {e.id for e in ex}
+        bedges = set(blocked_edges)
         state: Dict[int, Tuple[int, int]] = {start.id: (0, 0)}
         work = [start]
         while work:
@@ -331,7 +332,7 @@ class CFG:
             inc = 1 if pred(n) else 0
             olo, ohi = lo + inc, min(hi + inc, cap)
             for (m, lab) in n.succ:
-                if lab in ign:
+                if lab in ign or (n.id, lab) in bedges:
                     continue
                 cur = state.get(m.id)
                 new = (olo, ohi) if cur is None else (min(cur[0], olo), max(cur[1], ohi))
